@@ -812,3 +812,16 @@ func FullParen(e Expr) Expr {
 	}
 	return e
 }
+
+// Tight is the spelling with no whitespace wherever two tokens cannot merge.
+type Tight struct{}
+
+func (Tight) WS(prev, next string, mayBeEmpty bool) string {
+	if mayBeEmpty {
+		return ""
+	}
+	return " "
+}
+func (Tight) Quote() byte         { return '\'' }
+func (Tight) TrailingComma() bool { return false }
+func (Tight) Trim() bool          { return false }
